@@ -63,7 +63,35 @@ def named(name):
         return crystal.Crystal(np.diag([1., 1.3]), [_a(0, 0), _a(.5, .37)]), 0
     if name == "oblique2d":
         return crystal.Crystal(_a([1, 0], [.3, 1.1]).T, [_a(0, 0), _a(.4, .3)]), 0
+    # one-site crystals whose point group leaves an antisymmetric tensor invariant (rational lattices)
+    if name == "oblique1": return crystal.Crystal(_a([1, 0], [.25, 1.125]).T, [_a(0, 0)]), 0            # 2-D, group 2
+    if name == "mono": return crystal.Crystal(_a([1, 0, 0], [0, 1.125, 0], [.25, 0, 1.25]).T, [_a(0, 0, 0)]), 0   # 2/m
+    if name == "tric": return crystal.Crystal(_a([1, 0, 0], [.25, 1.125, 0], [.25, .125, 1.25]).T, [_a(0, 0, 0)]), 0  # -1
+    if name == "mono-m":   # monoclinic 2/m (unique axis z) host + interstitials ON the mirror planes z=0, z=1/2 (site symmetry m:
+        # 2-D site vector basis), two Wyckoff sets
+        return crystal.Crystal(_a([1, 0, 0], [.25, 1.125, 0], [0, 0, 1.25]).T,
+                               [[_a(0, 0, 0)], [_a(.2, .3, 0), _a(-.2, -.3, 0), _a(.6, .1, .5), _a(-.6, -.1, .5)]], chemistry=["M", "I"]), 1
     raise KeyError(name)
+
+
+def rotation(axis, deg):
+    """proper rotation matrix about a Cartesian axis direction"""
+    axis = np.asarray(axis, dtype=float); axis = axis / np.linalg.norm(axis)
+    t = math.radians(deg); c, s_ = math.cos(t), math.sin(t)
+    Kx = np.array([[0, -axis[2], axis[1]], [axis[2], 0, -axis[0]], [-axis[1], axis[0], 0]])
+    return np.eye(3) * c + s_ * Kx + (1 - c) * np.outer(axis, axis)
+
+
+def rotated(crys, Q):
+    """the same crystal in a rotated Cartesian frame (lattice vectors Q a_i, same direct coordinates)"""
+    if crys.dim == 2: Q = np.asarray(Q)[:2, :2]
+    return crystal.Crystal(np.dot(Q, crys.lattice), crys.basis, chemistry=crys.chemistry)
+
+
+def random_rotation(rng, dim=3):
+    if dim == 2: return rotation([0, 0, 1], rng.uniform(0, 360))
+    v = np.array([rng.gauss(0, 1) for _ in range(3)])
+    return rotation(v, rng.uniform(0, 360))
 
 
 NAMES3 = ["sc", "fcc", "bcc", "hcp", "hcp-nonideal", "diamond", "b2", "tet", "ortho", "polar", "polar2w", "re3",
